@@ -19,6 +19,9 @@ func TestC01_History(t *testing.T) {
 	known := isKnown("C01", sigF1)
 	rapid.Check(t, func(rt *rapid.T) {
 		sc := genHistory(rt, c01Weights())
+		if rapid.IntRange(0, 2).Draw(rt, "resetlatest") == 0 {
+			sc.Reset = "latest"
+		}
 		journal("C01", "c01hist", sc)
 		v, labels, excl := runHistory(&sc, known != nil, "C01")
 		journalDone()
